@@ -17,6 +17,11 @@ pub struct Run {
 
 /// Run the binary with `args`; `stdin` is fed if given. Wall-clock limit is a watchdog only.
 pub fn run(cli: &str, args: &[String], stdin: Option<&str>, limit: Duration) -> Run {
+    run_bytes(cli, args, stdin.map(|s| s.as_bytes()), limit)
+}
+
+/// [run] with arbitrary bytes on standard input (inputs that are not valid UTF-8)
+pub fn run_bytes(cli: &str, args: &[String], stdin: Option<&[u8]>, limit: Duration) -> Run {
     let mut cmd = Command::new(cli);
     cmd.args(args).stdout(Stdio::piped()).stderr(Stdio::piped()).stdin(if stdin.is_some() { Stdio::piped() } else { Stdio::null() });
     cmd.env_remove("RUST_BACKTRACE");
@@ -26,7 +31,7 @@ pub fn run(cli: &str, args: &[String], stdin: Option<&str>, limit: Duration) -> 
     };
     if let Some(text) = stdin {
         if let Some(mut si) = child.stdin.take() {
-            let _ = si.write_all(text.as_bytes());
+            let _ = si.write_all(text);
         }
     }
     let start = Instant::now();
